@@ -183,6 +183,15 @@ def run(ctx):
         for key in ("t.c2s.write.pre", "t.s2c.write.pre"):
             for nth in (1, 2, 3, 4):
                 delay.append(dict(base, id="delay/incs/cap%d/%s#%d" % (cap, key, nth), delay_key=key, delay_nth=nth))
+    # more rejected inputs at the same moment than the server's error queue (3) and its handler can hold, while the
+    # client's read loop is held back: every call still gets its own step's error once the loop reads on
+    for n in (6, 9):
+        ids = ["r%d" % k for k in range(1, n + 1)]
+        runs = [dict(id=x, beh="ok", echo=10 + k % 9) for k, x in enumerate(ids)]
+        runs[-1] = dict(id=ids[-1], beh="ok", echo=2)          # one valid call among them
+        base = dict(mode="delay", cap=0, frag=False, seed=ctx.seed * 17 + n, runs=runs, workload=dict(phases=[ids], close="end"))
+        for key, nth in (("t.s2c.read.pre", 1), ("t.s2c.read.pre", 2), ("c.deliver.pre|r1", 1), ("t.s2c.write.pre", 2)):
+            delay.append(dict(base, id="delay/burst%d/%s#%d" % (n, key, nth), delay_key=key, delay_nth=nth))
     res = A.run_driver(ctx, delay, label="c05delay")
     for sc, rr in zip(delay, res):
         out = judge(ctx, sc, rr, "delay " + sc["delay_key"])
